@@ -37,17 +37,17 @@ FIELDS = (("cell", len(CELLS)),           # (protocol, role of the library, beha
 
 
 def _expand(x):
-    """case = explicit fields derived from one drawn integer through SHA-256.  Hypothesis draws small / boundary values first and
+    """case = explicit fields derived from eight drawn bytes through SHA-256.  Hypothesis draws small / boundary values first and
     a worker only runs a few dozen cases: drawing the fields directly put a quarter of all cases into cell 0."""
-    h = int.from_bytes(hashlib.sha256(b"scripted12/%d" % x).digest(), "big")
-    case = {"draw": x}
+    h = int.from_bytes(hashlib.sha256(b"scripted12/" + x).digest(), "big")
+    case = {"draw": x.hex()}
     for name, n in FIELDS:
         case[name] = h % n
         h //= n
     return case
 
 
-case_s = st.integers(0, 2 ** 48 - 1).map(_expand)
+case_s = st.binary(min_size=8, max_size=8).map(_expand)      # (integers() repeats its favourite values in every worker)
 
 
 def _detail(proto, role, beh, case):
